@@ -12,7 +12,7 @@ import (
 
 const (
 	cellTol     = 1e-5 // absolute quadrature tolerance per top-level cell (cells carry about 1/128 of the mass); the error estimates actually incurred are accumulated and enter every decision
-	gridBulk    = 12 // polar bins for the bulk of the primary lobe (plus ladder and uniform bins, see newWarp)
+	gridBulk    = 12   // polar bins for the bulk of the primary lobe (plus ladder and uniform bins, see newWarp)
 	gridNPhi    = 8
 	integralTol = 1e-3 // clause (a): stated tolerance of the design
 	maxQuadErr  = 3e-3 // more accumulated quadrature error than this: the case is not decidable, skipped
